@@ -227,3 +227,50 @@ pub fn check_keeps(case: &str) -> Result<(), String> {
     }
     Ok(())
 }
+
+
+// ---------------- C09 at program level: `$_` in a goal behaves like a fresh variable ---------------------------
+// (bounded, supplementary: the proof covers every call of unify; this looks at the search that makes the calls)
+pub fn enum_anon_program(_seed: u64) -> Vec<String> {
+    let kbs = ["parent(Alice, Bob). parent(Carol, Dave). parent(Carol, Erin). age(Bob, 7). age(Dave, 9).                 child($C) :- parent($_, $C). both($X) :- parent($_, $X), age($X, $_). pair([$H, $_, $_], $H). first($_, b).",
+               "p(1, a). p(2.5, b). p(f(x), c). p([u, v], d). q($_, $_). r($X, $X)."];
+    let queries = [("parent($_, Dave)", "parent($Q1, Dave)"), ("parent($_, $_)", "parent($Q1, $Q2)"), ("age($_, 9)", "age($Q1, 9)"),
+                   ("child($X)", "child($X)"), ("both($X)", "both($X)"), ("parent($_, Nobody)", "parent($Q1, Nobody)"),
+                   ("pair([a, b, c], $X)", "pair([a, b, c], $X)"), ("first($_, $X)", "first($Q1, $X)"), ("parent(Carol, $_)", "parent(Carol, $Q1)"),
+                   ("p($_, $X)", "p($Q1, $X)"), ("p($_, c)", "p($Q1, c)"), ("q($_, $X)", "q($Q1, $X)"), ("r($_, a)", "r($Q1, a)"), ("p(f($_), $X)", "p(f($Q1), $X)"), ("p([u, $_], $X)", "p([u, $Q1], $X)")];
+    let mut out = vec![];
+    for (k, _) in kbs.iter().enumerate() { for (a, v) in queries.iter() { out.push(format!("kb={}\u{1}{}\u{1}{}", k, a, v)); } }
+    out
+}
+pub fn check_anon_program(case: &str) -> Result<(), String> {
+    let kbs = ["parent(Alice, Bob). parent(Carol, Dave). parent(Carol, Erin). age(Bob, 7). age(Dave, 9).                 child($C) :- parent($_, $C). both($X) :- parent($_, $X), age($X, $_). pair([$H, $_, $_], $H). first($_, b).",
+               "p(1, a). p(2.5, b). p(f(x), c). p([u, v], d). q($_, $_). r($X, $X)."];
+    let parts: Vec<&str> = case.split('\u{1}').collect();
+    let k: usize = parts[0].trim_start_matches("kb=").parse().map_err(|_| "bad case")?;
+    let mut kb = KnowledgeBase::new();
+    for r in kbs[k].split(". ") { let r = r.trim().trim_end_matches('.'); if r.is_empty() { continue; } let rule = parse_rule(&format!("{}.", r)).map_err(|e| format!("setup: {}", e))?; add_rules(&mut kb, vec![rule]); }
+    // the answers for $X (when the query has it), in order, must be the same with `$_` and with fresh named variables
+    let run = |q: &str| -> Result<Vec<String>, String> {
+        let query = parse_query(q).map_err(|e| format!("setup: {}", e))?;
+        let sn = make_base_node(Rc::new(query), &kb);
+        let mut answers = vec![];
+        for _ in 0..12 {
+            match next_solution(Rc::clone(&sn)) {
+                Some(ss) => {
+                    let g = sn.borrow().goal.clone();
+                    let shown = format!("{}", g.replace_variables(&ss));
+                    answers.push(shown);
+                },
+                None => break,
+            }
+        }
+        Ok(answers)
+    };
+    let with_anon = run(parts[1])?;
+    let with_vars = run(parts[2])?;
+    // compare the number of answers, and the value of $X where present
+    if with_anon.len() != with_vars.len() {
+        return Err(format!("`{}` has {} answer(s) but `{}` has {}: $_ does not behave like a fresh variable", parts[1], with_anon.len(), parts[2], with_vars.len()));
+    }
+    Ok(())
+}
